@@ -84,6 +84,9 @@ size_t g_key0; void *g_subj0; size_t g_len0; _Bool g_live0, g_match0;
 /* MAP_TRACKED (harnesses of functions that modify child nodes, specs/rt_models.h): the tracked child and the scratch
  * object that stands for any other child */
 struct Node *g_trk, *g_scr;
+/* lookupNode / subscribe (specs/rt_models.h) */
+size_t g_norx_from;         /* every key level with index >= g_norx_from is a string (subscribe keys contain no regex) */
+_Bool g_inserted; size_t g_sub_calls, g_subj_created; struct SubjCore *g_sub_on;
 _Bool g_thrown;
 static void X_throw(const char *what) { g_thrown = 1; }
 static void *X_operator_new(size_t n) { void *p = malloc(n); __CPROVER_assume(p != 0); return p; }
